@@ -54,6 +54,10 @@ theorem k_tryGet (q : Q) (c : Nat) : (q.tryGet c).k = q.k.wait c ∨ (q.tryGet c
   unfold gate
   split <;> rfl
 
+@[simp] theorem k_handTake (q : Q) : q.handTake.k = q.k.handTake := by
+  unfold handTake K.handTake
+  split <;> simp_all
+
 @[simp] theorem k_spawn (q : Q) : q.spawn.k = q.k.spawn := rfl
 @[simp] theorem k_join (q : Q) : q.join.k = q.k.join := rfl
 @[simp] theorem k_stepJoiner (q : Q) (j : Nat) : (q.stepJoiner j).k = q.k.stepJoiner j := rfl
@@ -112,6 +116,7 @@ theorem kstep_step (q : Q) (i : Input) : KStep q.k (q.step i).k := by
   | join => exact KStep.join _
   | cancel c => simp only [step, k_cancelConsumer]; exact KStep.refl _
   | gate c e => simp only [step, k_gate]; exact KStep.refl _
+  | take => simp only [step, k_handTake]; exact KStep.handTake _
   | run n =>
     simp only [step]
     split
